@@ -663,6 +663,23 @@ func genC20(g *Gen) {
 		p.Events = append(p.Events, Event{Kind: "node-down", When: When{Step: 1}, Node: reps[g.R.Intn(len(reps))]})
 	}
 	reads := []string{"get", "strlen", "exists", "ttl", "type", "hgetall", "llen", "scard", "zcard", "smembers", "hlen", "pttl"}
+	if p.Variant == "closed" {
+		// strictly sequential reads (one request in flight at a time: every request is decoded into the same recycled object),
+		// most of them for one master
+		hot := g.R.Intn(m)
+		cp := ClientPlan{Addr: clientAddr(0), Mode: "closed", CloseAfterSent: -1, CloseAfterReplies: -1, StartStep: 2}
+		for ri := 0; ri < 330; ri++ {
+			tok := Tok(0, ri)
+			mi := hot
+			rg := base.Nodes[mi].Slots[0]
+			cp.Reqs = append(cp.Reqs, g.Single(tok, g.R.Pick(reads), Key(tok, 0, g.R.Range(rg[0], rg[1]), "")))
+		}
+		p.Clients = append(p.Clients, cp)
+		p.Sched.MaxSteps = 30000
+		p.Sched.WTime = 0
+		p.Sched.ChunkPct = 0 // whole requests, whole replies: a partially received request costs a fresh request object
+		return
+	}
 	if p.Variant == "recover" {
 		// a replica is unreachable for a while (dial failures, ban), comes back, and long after that (20 fake seconds: the pool
 		// monitor probes every 5 s) a long run of reads must reach it again like every other healthy replica
@@ -860,6 +877,6 @@ func checkC20(d *Driver, res *Result) {
 		total += v
 	}
 	d.Counters["c20_reads"] = total
-	res.Nontrivial = total > 400
+	res.Nontrivial = total > 300
 	res.Sample = fmt.Sprintf("%d masters x %d replicas, %d reads; reads per node %v", countMasters(t), (len(t.Nodes)-countMasters(t))/countMasters(t), total, readsAt)
 }
